@@ -275,7 +275,16 @@ def replay(pid, path):
                 again = [g for g in out.failures if g.get("kind") == f.get("kind") and g.get("what") == f.get("what")][:1]
             how = "case regenerated from seed %s (%s tier)" % (found["seed"], found["tier"])
         known = load_known()
-        again = [g for g in again if not match_known(pid, g, known)]
+        listed = [(g, match_known(pid, g, known)) for g in again]
+        again = [g for g, k in listed if not k]
+        seen = set()
+        for _g, k in listed:
+            if k and k["id"] not in seen:            # still failing, and listed: an open finding, not a new violation
+                seen.add(k["id"])
+                print("KNOWN-FINDING: property=%s %s" % (pid, k["what"]))
+        if seen and not again:
+            print("REPRODUCED property=%s as the listed finding(s) %s (%s); exit 0: a listed finding is not reported as a violation" % (pid, sorted(seen), how))
+            return 0
         if again:
             print("now: %s" % json.dumps({k: v for k, v in again[0].items() if k != "_unshrunk"}, default=str)[:1500])
             print("REPRODUCED property=%s (%s)" % (pid, how))
